@@ -22,8 +22,9 @@ from ._common import ConfigParserMissingSectionException, ConfigParserDuplicateE
 from ._multi_range_parser import multi_range_parser
 
 def _number(t, v):
-  # int() and float() also accept digit-group underscores ('1_0' is 10): Python source syntax, not a number of the input format
-  if t in (int, float) and "_" in v:
+  # int() and float() also accept digit-group underscores ('1_0' is 10) and the digits of other scripts: Python
+  # source syntax and unicode generosity, not numbers of the input format
+  if t in (int, float) and ("_" in v or not v.isascii()):
     raise ValueError("invalid literal for {}(): '{}'".format(t.__name__, v))
   return t(v)
 
